@@ -5,13 +5,18 @@
 package repro_test
 
 import (
+	"bytes"
+	"fmt"
+	"io"
 	"log"
+	"net"
 	"os"
 	"path/filepath"
 	"sort"
 	"testing"
 
 	"github.com/gokrazy/rsync/internal/rsynctest"
+	"github.com/gokrazy/rsync/internal/rsyncwire"
 )
 
 func TestMain(m *testing.M) {
@@ -63,7 +68,7 @@ func TestF1DeleteAllExtraneous(t *testing.T) {
 		write(t, filepath.Join(dst, n), n)
 	}
 	srv := rsynctest.New(t, rsynctest.InteropModule(src))
-	rsynctest.Run(t, "gokr-rsync", "-a", "--delete", "rsync://localhost:"+srv.Port+"/interop/", dst)
+	rsynctest.Run(t, "gokr-rsync", "--gokr.dont_restrict", "-a", "--delete", "rsync://localhost:"+srv.Port+"/interop/", dst)
 	got := ls(t, dst)
 	for _, n := range []string{"x1", "x2", "x3"} {
 		if has(got, n) {
@@ -88,7 +93,7 @@ func TestF6DryRunChangesNothing(t *testing.T) {
 	}
 	before := ls(t, dst)
 	srv := rsynctest.New(t, rsynctest.InteropModule(src))
-	rsynctest.Run(t, "gokr-rsync", "-a", "-n", "rsync://localhost:"+srv.Port+"/interop/", dst)
+	rsynctest.Run(t, "gokr-rsync", "--gokr.dont_restrict", "-a", "-n", "rsync://localhost:"+srv.Port+"/interop/", dst)
 	after := ls(t, dst)
 	if len(before) != len(after) || !has(after, "reg") || has(after, "lnk") {
 		t.Errorf("dry run changed the destination: before=%v after=%v", before, after)
@@ -98,7 +103,7 @@ func TestF6DryRunChangesNothing(t *testing.T) {
 func pull(t *testing.T, src, dst string, flags ...string) {
 	t.Helper()
 	srv := rsynctest.New(t, rsynctest.InteropModule(src))
-	args := append([]string{"gokr-rsync", "-a"}, flags...)
+	args := append([]string{"gokr-rsync", "--gokr.dont_restrict", "-a"}, flags...)
 	args = append(args, "rsync://localhost:"+srv.Port+"/interop/", dst)
 	rsynctest.Run(t, args...)
 }
@@ -137,7 +142,7 @@ func TestF4WildcardIsAnError(t *testing.T) {
 	src, dst := filepath.Join(tmp, "src"), filepath.Join(tmp, "dst")
 	write(t, filepath.Join(src, "a.o"), "a")
 	srv := rsynctest.New(t, rsynctest.InteropModule(src))
-	out, err := rsynctest.CombinedOutput("gokr-rsync", "-a", "--exclude=*.o", "rsync://localhost:"+srv.Port+"/interop/", dst)
+	out, err := rsynctest.CombinedOutput("gokr-rsync", "--gokr.dont_restrict", "-a", "--exclude=*.o", "rsync://localhost:"+srv.Port+"/interop/", dst)
 	if err == nil {
 		t.Errorf("wildcard rule silently accepted; output: %s", out)
 	}
@@ -155,7 +160,7 @@ func TestF5DirectoryOnlyRule(t *testing.T) {
 		t.Errorf("--exclude=x/: got %v, want file x kept and directory sub/x left out", got)
 	}
 	srv := rsynctest.New(t, rsynctest.InteropModule(src))
-	if out, err := rsynctest.CombinedOutput("gokr-rsync", "-a", "--filter=!", "rsync://localhost:"+srv.Port+"/interop/", filepath.Join(tmp, "dst2")); err == nil {
+	if out, err := rsynctest.CombinedOutput("gokr-rsync", "--gokr.dont_restrict", "-a", "--filter=!", "rsync://localhost:"+srv.Port+"/interop/", filepath.Join(tmp, "dst2")); err == nil {
 		t.Errorf("clear-list rule silently accepted; output: %s", out)
 	}
 }
@@ -167,9 +172,90 @@ func TestF13LocalCopyHonoursExclude(t *testing.T) {
 	for _, n := range []string{"a", "b", "c"} {
 		write(t, filepath.Join(src, n), n)
 	}
-	rsynctest.Run(t, "gokr-rsync", "-a", "--exclude=b", src+"/", dst)
+	rsynctest.Run(t, "gokr-rsync", "--gokr.dont_restrict", "-a", "--exclude=b", src+"/", dst)
 	got := ls(t, dst)
 	if has(got, "b") || !has(got, "a") || !has(got, "c") {
 		t.Errorf("local copy --exclude=b: got %v, want [a c]", got)
+	}
+}
+
+// F9: an argument line such as --version sent by a peer must not exit the daemon process.
+// (On the pinned tree the test binary exits with status 0 in the middle of the test.)
+func TestF9PeerArgsCannotExitDaemon(t *testing.T) {
+	tmp := t.TempDir()
+	write(t, filepath.Join(tmp, "src", "a"), "a")
+	srv := rsynctest.New(t, rsynctest.InteropModule(filepath.Join(tmp, "src")))
+	for _, arg := range []string{"--version", "--help", "--info=help"} {
+		conn, err := net.Dial("tcp", "localhost:"+srv.Port)
+		if err != nil {
+			t.Fatal(err)
+		}
+		fmt.Fprintf(conn, "@RSYNCD: 27\ninterop\n--server\n--sender\n%s\n.\ninterop/\n\n", arg)
+		io.Copy(io.Discard, conn) // until the daemon closes the session
+		conn.Close()
+	}
+	// the daemon must still serve
+	pullOK := filepath.Join(tmp, "dst")
+	rsynctest.Run(t, "gokr-rsync", "--gokr.dont_restrict", "-a", "rsync://localhost:"+srv.Port+"/interop/", pullOK)
+	if !has(ls(t, pullOK), "a") {
+		t.Errorf("daemon did not serve after hostile argument lines")
+	}
+	os.WriteFile(filepath.Join(tmp, "survived"), nil, 0644)
+}
+
+// F8: a negative filter-rule length from a client must end the session with an error, not crash the daemon.
+func TestF8NegativeLengthsDoNotCrash(t *testing.T) {
+	tmp := t.TempDir()
+	write(t, filepath.Join(tmp, "src", "a"), "a")
+	srv := rsynctest.New(t, rsynctest.InteropModule(filepath.Join(tmp, "src")))
+	conn, err := net.Dial("tcp", "localhost:"+srv.Port)
+	if err != nil {
+		t.Fatal(err)
+	}
+	fmt.Fprintf(conn, "@RSYNCD: 27\ninterop\n--server\n--sender\n-r\n.\ninterop/\n\n")
+	conn.Write([]byte{0xff, 0xff, 0xff, 0xff}) // filter rule length -1
+	io.Copy(io.Discard, conn)
+	conn.Close()
+	// a request for file index 2^31-1 after a valid start
+	conn, err = net.Dial("tcp", "localhost:"+srv.Port)
+	if err != nil {
+		t.Fatal(err)
+	}
+	fmt.Fprintf(conn, "@RSYNCD: 27\ninterop\n--server\n--sender\n-r\n.\ninterop/\n\n")
+	conn.Write([]byte{0, 0, 0, 0})             // empty filter list
+	conn.Write([]byte{0xff, 0xff, 0xff, 0x7f}) // file index 2147483647
+	conn.Write(make([]byte, 16))               // a sum head, in case it is read
+	io.Copy(io.Discard, conn)
+	conn.Close()
+	dst := filepath.Join(tmp, "dst")
+	rsynctest.Run(t, "gokr-rsync", "--gokr.dont_restrict", "-a", "rsync://localhost:"+srv.Port+"/interop/", dst)
+	if !has(ls(t, dst), "a") {
+		t.Errorf("daemon did not serve after hostile lengths")
+	}
+}
+
+// F10: every frame a server emits must be well formed: a payload larger than
+// 2^24-1 bytes must not corrupt the tag byte.
+func TestF10LargeMessageIsWellFormed(t *testing.T) {
+	var buf bytes.Buffer
+	w := &rsyncwire.MultiplexWriter{Writer: &buf}
+	payload := bytes.Repeat([]byte("x"), 17<<20)
+	if _, err := w.WriteMsg(rsyncwire.MsgError, payload); err != nil {
+		t.Fatal(err)
+	}
+	r := &rsyncwire.MultiplexReader{Reader: &buf}
+	var got int
+	for buf.Len() > 0 {
+		tag, p, err := r.ReadMsg()
+		if err != nil {
+			t.Fatalf("emitted stream is not a sequence of valid frames: %v", err)
+		}
+		if tag != rsyncwire.MsgError {
+			t.Fatalf("frame tag = %d, want MsgError", tag)
+		}
+		got += len(p)
+	}
+	if got != len(payload) {
+		t.Errorf("payload bytes = %d, want %d", got, len(payload))
 	}
 }
